@@ -1,7 +1,7 @@
 """Shared spec functions (DESIGN section 3).  Total recursive Python functions: CPython runs
 them as written; the symbolic back end turns each into an uninterpreted symbol whose
 definition is unfolded at the applications that occur."""
-from pyvc.api import spec, lemma, implies, Int, Real, Bool, Str, CSet, Seq, Ballot, Profile
+from pyvc.api import spec, lemma, implies, Int, Real, Bool, Str, CSet, Seq, Ballot, Profile, Opt, dsum
 
 
 @spec
@@ -106,3 +106,56 @@ def lin(t: Seq(CSet), s: CSet) -> Bool:
 def take_snoc(r: Seq(CSet), i: Int) -> Bool:
     """a prefix extended by the next element is the next prefix"""
     return implies(0 <= i and i < len(r), r[:i] + (r[i],) == r[:i + 1])
+
+
+# ---------------------------------------------------------------- ballots / profiles
+@spec
+def wsum(bs: Seq(Ballot), n: Int) -> Real:
+    """total weight of the first n ballots"""
+    return 0 if n <= 0 else wsum(bs, n - 1) + bs[n - 1].weight
+
+
+@spec
+def distinct(cs: Seq(Str), n: Int) -> Bool:
+    """the first n names are pairwise different"""
+    return True if n <= 0 else (distinct(cs, n - 1) and cs[n - 1] not in cs[:n - 1])
+
+
+@spec(opaque=True)
+def boundary_tie(profile: Profile, m: Int, tiebreak: Opt(Str)) -> Bool:
+    """the count of this profile meets candidates tied on the deciding tally across the last
+    seat and cannot break the tie (uninterpreted for the solver: it only has to be the same
+    condition in the constructor's contract and in Election.__init__'s assumed contract)"""
+    raise NotImplementedError("opaque spec function: not evaluable natively")
+
+
+@spec
+def all_ranked(bs: Seq(Ballot), n: Int) -> Bool:
+    """each of the first n ballots has a non-empty ranking"""
+    return True if n <= 0 else (all_ranked(bs, n - 1) and bs[n - 1].ranking is not None and len(bs[n - 1].ranking) > 0)
+
+
+@lemma(induct="n")
+def all_ranked_prefix(bs: Seq(Ballot), j: Int, n: Int) -> Bool:
+    return implies(0 <= j and j <= n and all_ranked(bs, n), all_ranked(bs, j))
+
+
+@spec
+def ballot_untied(b: Ballot) -> Bool:
+    """the ballot has a non-empty ranking without tied positions"""
+    return b.ranking is not None and len(b.ranking) > 0 and all(len(s) <= 1 for s in b.ranking)
+
+
+@spec
+def all_untied(bs: Seq(Ballot), n: Int) -> Bool:
+    return True if n <= 0 else (all_untied(bs, n - 1) and ballot_untied(bs[n - 1]))
+
+
+@lemma(induct="n")
+def all_untied_prefix(bs: Seq(Ballot), j: Int, n: Int) -> Bool:
+    return implies(0 <= j and j <= n and all_untied(bs, n), all_untied(bs, j))
+
+
+@lemma(induct="n")
+def untied_implies_ranked(bs: Seq(Ballot), n: Int) -> Bool:
+    return implies(all_untied(bs, n), all_ranked(bs, n))
